@@ -47,7 +47,7 @@ PayloadEncodingOk(e, sig) ==
     ELSE IF sig \in {"t1", "bin"} THEN Len(e.pay_vals) = 1 /\ e.payload_json = e.pay_vals[1]
     ELSE e.payload_json = [t |-> "a", e |-> e.pay_vals]
 TrSubMsgBuilt ==
-    /\ IsEvent("SubMsgBuilt") /\ st \in {"idle", "dispatched"}
+    /\ IsEvent("SubMsgBuilt") /\ st \in {"idle", "dispatched", "probed"}
     /\ Chk("C08", "builder_exists_for_every_handler_name_and_succeeds", l, E.verdict = "ok" /\ E.h \in AllHandlers(Pr))
     /\ IF E.verdict = "ok" /\ E.h \in AllHandlers(Pr)
        THEN /\ Chk("C08", "builder_stamps_the_handlers_id", l, E.id = IdOfH(fx.ids, E.h))
@@ -62,7 +62,7 @@ TrSubMsgBuilt ==
 
 (* ---- a reply reaches the dispatcher ------------------------------------ *)
 TrReply ==
-    /\ IsEvent("Reply") /\ st \in {"idle", "dispatched"}
+    /\ IsEvent("Reply") /\ st \in {"idle", "dispatched", "probed"}
     /\ LET sameId == fx.builtseq = E.seq /\ E.h # "?"
            fromBuilder == sameId /\ E.pay = "built"       \* (with another payload it is not the chain's reply to the built sub-message)
        IN
@@ -188,6 +188,25 @@ TrReplyReturn ==
     /\ st' = "dispatched"
     /\ UNCHANGED <<pi, sub, rep, fx>>
 
+(* ---- C04: documents delivered to the *other* entry points of a reply program (execute, query, sudo), named after its reply methods  *)
+(* ---- and handler names and carrying a reply as their body: none of them may run a reply method                                       *)
+ReplyMethodNames == {Pr.methods[i].name : i \in 1..Len(Pr.methods)}
+TrProbe ==
+    /\ IsEvent("Probe") /\ st \in {"idle", "dispatched", "probed"}
+    /\ st' = "probing" /\ sub' = NoSub /\ rep' = NoRep /\ out' = NoOut
+    /\ UNCHANGED <<pi, fx>>
+TrProbeHandler ==       \* a handler reports that it runs while a probe is in flight
+    /\ IsEvent("ReplyHandler") /\ st = "probing"
+    /\ Chk("C04", "a_document_sent_to_another_entry_point_runs_no_reply_handler", l, E.name \notin ReplyMethodNames)
+    /\ UNCHANGED <<pi, st, sub, rep, out, fx>>
+TrProbeReturn ==
+    /\ IsEvent("ProbeReturn") /\ st = "probing"
+    \* the only messages a reply program has at these entry points are `fire` (execute) and, in L3, the sudo handler called `reply`
+    /\ Chk("C04", "no_message_of_another_kind_is_named_after_a_reply_method", l,
+           E.decoded => (E.key = "fire" \/ (Legacy(Pr) /\ Pr.decoy /\ E.kind = "sudo" /\ E.key = "reply")))
+    /\ st' = "probed"
+    /\ UNCHANGED <<pi, sub, rep, out, fx>>
+
 (* ---- generated code panicked while building a sub-message or dispatching a reply (data, not a tool failure) ---- *)
 TrPanic ==
     /\ IsEvent("Panic")
@@ -195,7 +214,7 @@ TrPanic ==
     /\ st' = "idle" /\ sub' = NoSub /\ rep' = NoRep /\ out' = NoOut
     /\ UNCHANGED <<pi, fx>>
 
-TStep == TrLegacyReplyHandler \/ TrLegacyReplyReturn \/ TrPanic \/ TrReset \/ TrBuild \/ TrReplyIds \/ TrSubMsgBuilt \/ TrReply \/ TrReplyHandler \/ TrReplyReturn
+TStep == TrProbe \/ TrProbeHandler \/ TrProbeReturn \/ TrLegacyReplyHandler \/ TrLegacyReplyReturn \/ TrPanic \/ TrReset \/ TrBuild \/ TrReplyIds \/ TrSubMsgBuilt \/ TrReply \/ TrReplyHandler \/ TrReplyReturn
 InvariantsHold ==
     /\ Chk("C07", "invariant_C07_DeclaredMethodRuns", l, C07_DeclaredMethodRuns')
     /\ Chk("C07", "invariant_C07_UncoveredOutcomeActsAsNoReply", l, C07_UncoveredOutcomeActsAsNoReply')
